@@ -15,7 +15,7 @@ class Analysis(object):
         cache = self.__dict__.setdefault("_alias_x", {})
         if f.qualname not in cache:
             from .symtext import Expander
-            cache[f.qualname] = Expander(f, self.s.cfg(f), only_locations=True)
+            cache[f.qualname] = Expander(f, self.s.cfg(f), only_locations=True, inline=self.p)
         return cache[f.qualname]
 
     def note_coverage(self, rep):
